@@ -24,6 +24,18 @@ CHECKS = {
    text="Pairs (A,B): A from the shared generator with one explicitly quantized float attribute, B an independently generated mesh or point cloud containing a subset of A's coordinates plus private ones inside the same box, encoded with independent method, speed, API and prediction. Oracle: every shared coordinate decodes to bit-identical floats on both sides, lies on the grid origin + k*range/(2^bits-1) and within half a step of the original.",
    note="Explicit parameters are fixed points of the options layer's text round trip (the API stores floats with 6 decimals); see DESIGN.md.",
    design="3/C12"),
+ "C13": dict(engine="enumerator + rapidcheck", category="exploration", technique="exhaustive enumeration of all lists of <= 3 (thorough 4) triangles over 5 ids + property-based testing (rapidcheck) of larger lists, invariant oracle on the constructed corner table",
+   text="Every ordered list of 1..3 triangles over vertex ids 0..4 (1,968,875 lists; thorough adds all 244 M lists of 4) and rapidcheck lists of up to 200/400 triangles built by reusing edges in both orientations, repeating / mirroring faces, degenerate faces, sparse ids. Oracle after CornerTable::Create: opposite relation symmetric, across different faces, over an oppositely oriented shared edge (input ids and table vertices); SwingRight from LeftMostCorner enumerates exactly the corners of the vertex once, SwingLeft inverse, boundary flag; VertexParent(Vertex(c)) == input id; degenerate faces unlinked; degenerate / isolated / new-vertex counters consistent; and the same style of invariants for a MeshAttributeCornerTable built from a generated per-corner attribute (seams symmetric and only where the attribute entries differ, attribute vertices refine base vertices).",
+   note="Exhaustive for the enumerated sub-space only. Trusts the harness's restatement of the invariants (written from the property text, validated on the unchanged tree over the full enumeration).",
+   design="3/C13"),
+ "C16": dict(engine="enumerator + rapidcheck", technique="exhaustive enumeration (small wrap ranges, octahedral grids q<=5/6) + property-based testing (rapidcheck) with boundary-biased 32-bit tuples; inverse oracle dec(pred, enc(orig, pred)) == orig and correction interval",
+   text="Wrap transform: all ranges inside [-6,6] x all originals x predictions in [-40,40] exhaustively; rapidcheck tuples with ranges at INT32_MIN/MAX/0, widths 0, 1, 2, 2^31-2 and predictions anywhere in int32, 1..4 components, decoder initialised through EncodeTransformData->DecodeTransformData. Canonicalized octahedral transform: every pair of canonical (s,t) for q = 2..5 (thorough 6), rapidcheck pairs for q up to 30 biased to corners, centre and diamond edges. Oracle: exact inverse, corrections inside [-N/2, N/2] resp. [0, 2^q-2], UBSan clean.",
+   note="Canonical coordinates are the fixed points of OctahedronToolBox::CanonicalizeOctahedralCoords.",
+   design="3/C16"),
+ "C17": dict(engine="enumerator + rapidcheck", technique="exhaustive 8/16-bit varints and zig-zag maps + property-based testing (rapidcheck) of write/read operation sequences over EncoderBuffer/DecoderBuffer and the five bit coders, mirrored-read oracle",
+   text="All values of uint8/int8/uint16/int16 through EncodeVarint/DecodeVarint and the zig-zag maps (bijection); every bit-field width 0..32 and every coder x width; rapidcheck sequences of scalars, byte blocks, varints (boundary-biased 32/64-bit), bit-mode regions with/without stored size and slack, and runs of the rANS / adaptive rANS / direct / folded / symbol bit coders with explicit and bulk biased bit sequences (bias 0..1) appended to one buffer. Oracle: the mirrored read sequence returns exactly the written values and ends at remaining_size()==0; further reads fail or give zero bits; the buffer is an exact-size heap block so ASan sees any over-read.",
+   note="SymbolBitEncoder widths are capped at 20 (24) bits: it feeds EncodeSymbols, whose cost grows with the largest value (finding E1 beyond 2^31).",
+   design="3/C17"),
  "C08": dict(engine="rapidcheck", technique="property-based testing (rapidcheck): encode->decode round trip + consumed-size oracle over generated symbol arrays",
    text="Generated-input search: 16 rapidcheck shards draw symbol arrays over length / component / distribution / magnitude / forced-scheme / compression-level classes, encode them with EncodeSymbols, and require an exact decode, decoded_size == encoded size, a second back-to-back block and a random tail found at the right offset; ASan+UBSan stay on. Exploration, not proof: it shows absence of violations on the generated cases only.",
    note="Trusts rapidcheck's generators/shrinker and the sanitizer runtimes. Magnitudes above 2^22 (quick) / 2^27 (thorough) are capped because the encoder allocates O(max value) counters; lengths up to 5000 (quick) / 1e5 (thorough).",
